@@ -52,10 +52,12 @@ def gen_policy():
     u_rules, u_not = walker_facts(und, 'self._undefined_check')
     c_rules, c_not = walker_facts(cyc, 'self._cycle_check')
     ctext = ast.unparse(cyc)
-    if 'seen.copy()' not in ctext:
-        c_copy = False
-    else:
-        c_copy = True
+    c_copy = any(isinstance(n, ast.For) and ast.unparse(n.iter) == 'rules' and
+                 'self._cycle_check(rule, seen.copy())' in ast.unparse(n) for n in ast.walk(cyc))
+    if not c_copy:
+        raise Refuse('_cycle_check does not give each And/Or branch its own copy of seen')
+    if 'seen.add(check.match)' not in ctext or 'if check.match in seen:' not in ctext:
+        raise Refuse('_cycle_check seen-set handling has an unknown shape')
     b = lambda x: 'true' if x else 'false'
     out += '(* which children the reference walkers descend into *)\n'
     out += 'Definition undefined_descends_rules : bool := %s.\n' % b(u_rules)
